@@ -1,5 +1,6 @@
 // U7b: src/write.rs -- raw copy, append and Drop of ZipWriter (C13, C14, C01, C11, C12, C05)
 use vstd::prelude::*;
+use vstd::std_specs::convert::IntoSpec;
 use std::borrow::Cow;
 use std::collections::HashMap;
 use std::sync::Arc;
